@@ -372,3 +372,157 @@ func (c *Ctx) noUniqInRead(rule string, roots []*FuncInfo, clause string) int {
 	}
 	return n
 }
+
+// TOKENS-ALIKE: token kinds that the Newick parser handles in ONE case clause of its token switch
+// (`case IDENT, NUMERIC:` - a label, numeric-looking or not) are the same thing to the grammar. Any
+// test of the package that enumerates token kinds of a variable (`x == A || x == B ...`, `x != A &&
+// x != B`, `case A, B:` of a tagged switch outside the defining clause) and names one member of
+// such a group names them all: a comment, a length or a sibling that is accepted after a label is
+// accepted after a numeric-looking label too (tip names may look like numbers).
+func (c *Ctx) tokensAlike(rule string, fi *FuncInfo, pkgFuncs []*FuncInfo, clause string) int {
+	if fi == nil || fi.Decl.Body == nil {
+		return 0
+	}
+	info := fi.Pkg.TypesInfo
+	constOf := func(e ast.Expr) *types.Const {
+		if id, ok := unparen(e).(*ast.Ident); ok {
+			if k, isK := info.Uses[id].(*types.Const); isK {
+				return k
+			}
+		}
+		return nil
+	}
+	// groups: case clauses with >= 2 constants in the token switch of the parser
+	var groups [][]*types.Const
+	defining := map[*ast.CaseClause]bool{}
+	ast.Inspect(fi.Decl.Body, func(nd ast.Node) bool {
+		cc, ok := nd.(*ast.CaseClause)
+		if !ok || len(cc.List) < 2 {
+			return true
+		}
+		var g []*types.Const
+		for _, e := range cc.List {
+			if k := constOf(e); k != nil {
+				g = append(g, k)
+			}
+		}
+		if len(g) == len(cc.List) {
+			groups = append(groups, g)
+			defining[cc] = true
+		}
+		return true
+	})
+	if len(groups) == 0 {
+		// the clause was split: fall back on the group confirmed by hand (a label is IDENT or NUMERIC)
+		var g []*types.Const
+		for _, nm := range []string{"IDENT", "NUMERIC"} {
+			if k, ok := fi.Pkg.Types.Scope().Lookup(nm).(*types.Const); ok {
+				g = append(g, k)
+			}
+		}
+		if len(g) < 2 {
+			c.Undecided(rule, funcName(fi.Obj)+"/groups", fi.Decl.Pos(), "token kinds IDENT and NUMERIC not found in the Newick reader")
+			return 0
+		}
+		groups = append(groups, g)
+	}
+	n := 0
+	judge := func(pos token.Pos, where string, named map[*types.Const]bool) {
+		for _, g := range groups {
+			var in, out []string
+			for _, k := range g {
+				if named[k] {
+					in = append(in, k.Name())
+				} else {
+					out = append(out, k.Name())
+				}
+			}
+			if len(in) == 0 {
+				continue
+			}
+			n++
+			_, ln := c.pos(pos)
+			_ = ln
+			key := fmt.Sprintf("%s/%s", where, strings.Join(in, "+"))
+			c.Check(len(out) == 0, rule, key, pos, "the enumeration names every token kind of the label group",
+				fmt.Sprintf("this enumeration of token kinds names %s but not %s, which the parser's token switch handles in the same clause: what is accepted after one kind of label is refused after the other (a tip or node label that looks like a number)", strings.Join(in, ", "), strings.Join(out, ", "))).Clause = clause
+		}
+	}
+	for _, f := range pkgFuncs {
+		if f == nil || f.Decl.Body == nil || f.Pkg != fi.Pkg {
+			continue
+		}
+		fname := funcName(f.Obj)
+		idx := 0
+		var visit func(nd ast.Node) bool
+		visit = func(nd ast.Node) bool {
+			switch x := nd.(type) {
+			case *ast.BinaryExpr:
+				if x.Op != token.LOR && x.Op != token.LAND {
+					return true
+				}
+				cmp := token.EQL
+				if x.Op == token.LAND {
+					cmp = token.NEQ
+				}
+				// flatten the maximal chain
+				var leaves []ast.Expr
+				var flat func(e ast.Expr)
+				flat = func(e ast.Expr) {
+					if b, ok := unparen(e).(*ast.BinaryExpr); ok && b.Op == x.Op {
+						flat(b.X)
+						flat(b.Y)
+						return
+					}
+					leaves = append(leaves, unparen(e))
+				}
+				flat(x)
+				byVar := map[types.Object]map[*types.Const]bool{}
+				for _, l := range leaves {
+					if b, ok := l.(*ast.BinaryExpr); ok && b.Op == cmp {
+						v, k := identObj(info, b.X), constOf(b.Y)
+						if v == nil || k == nil {
+							v, k = identObj(info, b.Y), constOf(b.X)
+						}
+						if v != nil && k != nil {
+							if byVar[v] == nil {
+								byVar[v] = map[*types.Const]bool{}
+							}
+							byVar[v][k] = true
+						} else {
+							ast.Inspect(l, visit)
+						}
+					} else {
+						ast.Inspect(l, visit)
+					}
+				}
+				for v, named := range byVar {
+					if len(named) >= 2 {
+						idx++
+						judge(x.Pos(), fmt.Sprintf("%s/%s#%d", fname, v.Name(), idx), named)
+					}
+				}
+				return false
+			case *ast.SwitchStmt:
+				if x.Tag == nil {
+					return true
+				}
+				for _, st := range x.Body.List {
+					if cc, ok := st.(*ast.CaseClause); ok && !defining[cc] && len(cc.List) >= 2 {
+						named := map[*types.Const]bool{}
+						for _, e := range cc.List {
+							if k := constOf(e); k != nil {
+								named[k] = true
+							}
+						}
+						idx++
+						judge(cc.Pos(), fmt.Sprintf("%s/case#%d", fname, idx), named)
+					}
+				}
+			}
+			return true
+		}
+		ast.Inspect(f.Decl.Body, visit)
+	}
+	return n
+}
